@@ -70,6 +70,9 @@ def run(prog: Program, res: Result, tier: str) -> None:
     if not (w and r and pl):
         raise AnalysisError("JSONHandler.as_dict / json_deserialize / "
                             "_stereo_from_payload vanished")
+    from ..core import FuncInfo, unroll_literal_loops
+    r = FuncInfo(r.qual, r.module, unroll_literal_loops(r.node), r.cls)
+    w = FuncInfo(w.qual, w.module, unroll_literal_loops(w.node), w.cls)
     # -- sections -------------------------------------------------------------
     written: dict[tuple, set] = {}
     write_nodes = {}
@@ -194,8 +197,11 @@ def run(prog: Program, res: Result, tier: str) -> None:
         du = DefUse(r.node)
         for c in calls:
             kw = {k.arg: k.value for k in c.keywords}
-            good = set(kw) == {m.lower() for m in members}
+            good = {k for k in kw if k} == {m.lower() for m in members}
             for role, v in kw.items():
+                if role is None:
+                    good = False
+                    continue
                 defs = [norm(d, 200) for d in du.dep_nodes(v)]
                 # every definition of the local must look up the same role
                 own = [d for d in defs if "_stereo_from_payload(" in d]
@@ -284,6 +290,49 @@ def run(prog: Program, res: Result, tier: str) -> None:
     else:
         res.bad("J-PAYLOAD", "reader payload", pl.loc(), f"{inst}: {why}",
                 instance=inst)
+    # the reader returns None only for an absent payload
+    for rt in ast.walk(pl.node):
+        if isinstance(rt, ast.Return) and (rt.value is None or norm(
+                rt.value) == "None"):
+            guards = [norm(a.test) for a in ancestors(rt)
+                      if isinstance(a, ast.If)]
+            inst = f"reader: `return None` under {guards}"
+            if guards and all(g in ("not payload", "payload is None")
+                              for g in guards):
+                res.ok("J-PAYLOAD", inst, pl.loc(rt))
+            else:
+                res.bad("J-PAYLOAD", f"reader drops payload under {guards}",
+                        pl.loc(rt), f"{inst}: a stored descriptor is "
+                        "discarded on reading (e.g. every descriptor with a "
+                        "None placeholder when the test compares its atoms "
+                        "with the graph's atoms)", instance=inst)
+    # set_*_stereo_change REPLACES the entry: one call per entry, all roles
+    for kind in ("atom", "bond"):
+        for c in ast.walk(r.node):
+            if isinstance(c, ast.Call) and isinstance(
+                    c.func, ast.Attribute) and c.func.attr == \
+                    f"set_{kind}_stereo_change":
+                inner_loops = []
+                for a in ancestors(c):
+                    if isinstance(a, ast.For):
+                        inner_loops.append(a)
+                # the nearest loop must be the one over the section's entries
+                inst = f"reader: {norm(c.func)} called once per entry with all roles"
+                kws = {k.arg for k in c.keywords}
+                per_entry = bool(inner_loops) and ".values()" in norm(
+                    inner_loops[0].iter) and "Stereo Changes" in norm(
+                    inner_loops[0].iter)
+                if per_entry and kws == {"broken", "formed", "fleeting"}:
+                    res.ok("J-ENUM", inst, r.loc(c))
+                else:
+                    res.bad("J-ENUM", f"reader: {norm(c, 70)} per role",
+                            r.loc(c), f"{inst}: the call sits in "
+                            f"`for {norm(inner_loops[0].target) if inner_loops else '?'} in "
+                            f"{norm(inner_loops[0].iter, 50) if inner_loops else '?'}` "
+                            f"with keywords {sorted(k or '**' for k in kws)}; "
+                            "the setter replaces the whole entry, so an atom "
+                            "or bond with more than one change keeps only the "
+                            "last one", instance=inst)
     # filters that drop payloads: only `if stereo is not None`
     for node in ast.walk(w.node):
         if isinstance(node, ast.If) and "stereo" in norm(node.test) and \
